@@ -50,6 +50,25 @@ def nlp_diff(p):
         return dict(status="confirmed", failing_input=out["instance"], observed="specification transcribed silently (no exception)",
                     expected="rejected: " + reject, **out)
     opti = spec.opti
+    if p.get("parts") and "init" in p["parts"]:
+        from contracts.oracle import expected_initial
+        bad = []
+        n = 0
+        start = opti.initial()
+        for tag, handle, exp in expected_initial(spec, meth, spec.initial_realised):
+            n += 1
+            try:
+                got = np.array(opti.debug.value(ca.MX(handle), start)).reshape(-1)
+            except Exception as e:
+                bad.append(dict(variable="/".join(str(t) for t in tag), observed="cannot be read back: %s" % str(e)[:100]))
+                continue
+            want = np.array(ca.evalf(ca.MX(exp))).reshape(-1)
+            if got.shape != want.shape or np.max(np.abs(got - want)) > 1e-9 * (1 + np.max(np.abs(want))):
+                bad.append(dict(variable="/".join(str(t) for t in tag), observed=got.tolist(), expected=want.tolist()))
+        if bad:
+            return dict(status="confirmed", failing_input=dict(instance=out["instance"], guesses=[(str(t), str(v)[:80]) for t, v in spec.initial_realised]),
+                        problems=[dict(what="starting values differ from the guesses", variables=bad[:8], count=len(bad), checked=n)], **out)
+        return dict(status="not-reproduced", detail="all %d starting values equal the guess oracle" % n, **out)
     with contextlib.redirect_stdout(io.StringIO()):
         orc = Oracle(spec, meth).expected()
     x, par = opti.x, opti.p
